@@ -71,6 +71,7 @@ type Fact struct {
 	Type     string   `json:"type"`
 	Iff      []string `json:"iff"`
 	Dv       []string `json:"dv"`              // DefaultValues()
+	Idb      string   `json:"idb"`             // module of the identity an identityref's base denotes
 	Opcfg    bool     `json:"opcfg,omitempty"` // specification side only: an explicit config applies inside an rpc / action / notification
 }
 type flatmap map[string][]Fact
@@ -329,6 +330,16 @@ func Flatten(root *yang.Entry) map[string]*Observed {
 				o.Type = c.Type.Name
 			}
 			o.Dv = append([]string{}, c.DefaultValues()...)
+			if c.Type != nil && c.Type.IdentityBase != nil {
+				if r := yang.RootNode(c.Type.IdentityBase); r != nil {
+					o.Idb = r.Name
+					if r.BelongsTo != nil {
+						o.Idb = r.BelongsTo.Name
+					}
+				} else {
+					o.Idb = "?"
+				}
+			}
 			o.Iff = []string{}
 			for _, x := range c.Extra["if-feature"] {
 				if v, ok := x.(*yang.Value); ok && v != nil {
